@@ -179,4 +179,52 @@ theorem not_stopAt_iff (far : Fid) (ns fs : List Fid) (j : Nat) (h1 : j < ns.len
   · intro ⟨a, b⟩; exact ⟨b, a⟩
   · intro ⟨a, b⟩; exact ⟨b, a⟩
 
+/-- the exits are a suffix of `nears`: every exited frame is a current frame -/
+theorem exEn_exits_mem (far : Fid) (ns fs : List Fid) (x : Fid) (h : x ∈ (exEn far ns fs).1) : x ∈ ns := by
+  cases hs : stopIndex far ns fs with
+  | some i =>
+    rw [exEn_of_stop far ns fs i hs] at h
+    exact List.mem_of_mem_drop h
+  | none =>
+    rw [exEn_of_noStop far ns fs hs] at h
+    simp at h
+
+theorem exEn_reexens_mem (far : Fid) (ns fs : List Fid) (x : Fid) (h : x ∈ (exEn far ns fs).2.2) : x ∈ ns := by
+  cases hs : stopIndex far ns fs with
+  | some i =>
+    rw [exEn_of_stop far ns fs i hs] at h
+    exact List.mem_of_mem_take h
+  | none =>
+    rw [exEn_of_noStop far ns fs hs] at h
+    exact h
+
+theorem exEn_enters_mem (far : Fid) (ns fs : List Fid) (x : Fid) (h : x ∈ (exEn far ns fs).2.1) : x ∈ fs := by
+  cases hs : stopIndex far ns fs with
+  | some i =>
+    rw [exEn_of_stop far ns fs i hs] at h
+    exact List.mem_of_mem_drop h
+  | none =>
+    rw [exEn_of_noStop far ns fs hs] at h
+    simp at h
+
+/-- when something is entered, the last (bottom) frame of the current outline is exited -/
+theorem exEn_last_exited (far : Fid) (ns fs : List Fid) (m : Fid) (hen : (exEn far ns fs).2.1 ≠ [])
+    (hm : ns.getLast? = some m) : m ∈ (exEn far ns fs).1 := by
+  cases hs : stopIndex far ns fs with
+  | none =>
+    rw [exEn_of_noStop far ns fs hs] at hen
+    exact absurd rfl hen
+  | some i =>
+    rw [exEn_of_stop far ns fs i hs]
+    have hl := (stopIndex_lt far ns fs i hs).1
+    show m ∈ ns.drop i
+    have hne : ns.drop i ≠ [] := by
+      intro h; rw [List.drop_eq_nil_iff] at h; omega
+    have : (ns.drop i).getLast? = some m := by
+      rw [List.getLast?_drop]
+      simp only [hm]
+      have : ¬ ns.length ≤ i := by omega
+      simp [this]
+    exact List.mem_of_getLast? this
+
 end Ioflo.Outline
